@@ -8,3 +8,13 @@ import Ark.Props.C04
 #print axioms Ark.Props.C04.index_cleanup_done
 #print axioms Ark.Props.C04.index_removeTarget
 #print axioms Ark.Props.C04.free_alone_breaks
+#print axioms Ark.Props.C04.src_newTableIDs
+#print axioms Ark.Props.C04.src_tableIDs_append
+#print axioms Ark.Props.C04.src_tableIDs_remove
+#print axioms Ark.Props.C04.src_tableIDs_clear
+#print axioms Ark.Props.C04.src_addTable
+#print axioms Ark.Props.C04.src_removeTarget
+#print axioms Ark.Props.C04.src_getFreeTable
+#print axioms Ark.Props.C04.src_hasRelations
+#print axioms Ark.Props.C04.src_freeTable
+#print axioms Ark.Props.C04.src_removeTableRelations
